@@ -1,5 +1,6 @@
 import worldchecks
 import queuechecks
+import agentchecks
 
 CHECKS = {}
 for _p in worldchecks.CONF:
@@ -7,6 +8,7 @@ for _p in worldchecks.CONF:
 CHECKS['C04'] = queuechecks.run_c04
 CHECKS['C05'] = queuechecks.run_c05
 CHECKS['C06'] = queuechecks.run_c06
+CHECKS['C09'] = agentchecks.run_c09
 
 
 def replay(prop, path):
